@@ -1135,6 +1135,16 @@ def _do_restart(res, live, op, fs, oi, n):
 # ------------------------------------------------------------------------------------------
 # replicas (C07)
 # ------------------------------------------------------------------------------------------
+def _flowless_machine(net):
+    """pump / compressor without flow: on the discontinuity of its characteristic (see e4._ill_posed)"""
+    for t in ("res_pump", "res_compressor"):
+        if t in net and len(net[t]) and "mdot_from_kg_per_s" in net[t]:
+            m = np.abs(net[t]["mdot_from_kg_per_s"].values.astype(float))
+            if np.any(np.isfinite(m) & (m < netmodel.ZERO_FLOW_ABS)):
+                return True
+    return False
+
+
 def _make_replicas(program, trace):
     reps = []
     for name, ov in (("numpy", {"use_numba": False}),
@@ -1189,11 +1199,18 @@ def _run_replicas(res, replicas, op, live, outcome, mode, solver, oi):
         # the reference itself left with a foreign exception: that is C05's finding, nothing to compare
         res.count("probe:replica-reference-foreign-exception")
         return
+    from .e4 import _almost_converged, _ill_posed, _results_by_tag
     for s, out in zip(replicas[1:], outs[1:]):
+        if out != outs[0] and {out, outs[0]} == {"ok", "nc"} and (_almost_converged(s.net) or _almost_converged(ref.net)):
+            res.count("probe:slow-convergence-verdict-skipped")   # creeping towards the solution at the round-off floor
+            continue
         if out != outs[0]:
             res.violate("C07", "C07/verdict-differs:%s-vs-%s:%s-vs-%s@%s" % (ref.name, s.name, outs[0], out, mode), "%s vs %s" % (outs[0], out), oi)
             continue
         if out != "ok":
+            continue
+        if _flowless_machine(ref.net) or _flowless_machine(s.net):
+            res.count("probe:ill-posed-flowless-pump")
             continue
         # temperatures of junctions inside a flowless loop are decided by the sign of a round-off flow
         fl = netmodel.flowless_junctions(ref.net) | netmodel.flowless_junctions(s.net)
